@@ -15,6 +15,7 @@ import QuaiVerif.Driver.Validate
 import QuaiVerif.Driver.Reorg
 import QuaiVerif.Driver.Crash
 import QuaiVerif.Driver.HeaderRules
+import QuaiVerif.Driver.Seal
 /- qvdriver: `qvdriver <area>` reads protocol lines on stdin, answers one line per line. -/
 open QuaiVerif
 
@@ -34,6 +35,7 @@ def main (args : List String) : IO UInt32 := do
   | ["utxo"] => ioLoop Utxo.step stdin stdout {}; return 0
   | ["mem"] => ioLoop Mem.step' stdin stdout (); return 0
   | ["c11"] => ioLoop Crash.step stdin stdout (); return 0
+  | ["c08"] => ioLoop Seal.step stdin stdout (); return 0
   | ["c09"] => ioLoop HeaderRules.step stdin stdout HeaderRules.Acc.genesis; return 0
   | ["c10"] => ioLoop Reorg.step stdin stdout {}; return 0
   | ["c07"] => ioLoop Validate.step stdin stdout {}; return 0
